@@ -1,6 +1,6 @@
 """Unit V-rvspace: oxmpl/src/base/spaces/real_vector_state_space.rs under contract for EVERY dimension:
-constructor (C12), interpolation formula (C10), bounds check and sampler (C11), resolution setter (C06).
-distance / get_maximum_extent / enforce_bounds use iterator adapters (outside the Verus subset): they are external_body here and are
+constructor (C12), interpolation formula (C10), bounds enforcement, bounds check and sampler (C11).
+distance / get_maximum_extent use iterator adapters (outside the Verus subset): they are external_body here and are
 covered by the bounded Kani harnesses."""
 import re
 from extract import Ann
@@ -9,12 +9,13 @@ NAME = "V-rvspace"
 SRC = "oxmpl/src/base/spaces/real_vector_state_space.rs"
 SOURCES = [SRC]
 PRELUDE = ["core.rs", "spaces.rs"]
-SERVES = ["C10", "C11", "C12"]
-FUNCTIONS = [SRC + "::RealVectorStateSpace::" + f for f in ("new", "interpolate", "satisfies_bounds", "sample_uniform")]
-TRUSTED = ["RealVectorStateSpace::distance, get_maximum_extent, get_longest_valid_segment_length (no listed property constrains the resolution of R^n itself) and enforce_bounds are external_body in this unit (iterator adapters; covered by bounded Kani harnesses)",
+SERVES = ["C10", "C11", "C12", "C04"]
+FUNCTIONS = [SRC + "::RealVectorStateSpace::" + f for f in ("new", "interpolate", "enforce_bounds", "satisfies_bounds", "sample_uniform")]
+TRUSTED = ["RealVectorStateSpace::distance, get_maximum_extent and get_longest_valid_segment_length (no listed property constrains the resolution of R^n itself) are external_body in this unit (iterator adapters; covered by bounded Kani harnesses)",
            "struct RealVectorState { values: Vec<f64> } is prelude text of this unit",
            "rand's random_range(lo..hi) on f64 returns lo <= v < hi when lo < hi (stub rng_random_range_f64; its panic condition `empty range` is the precondition)",
            "vec![x; n] as the stub vec_repeat (length n, every element x)",
+           "f64::clamp is the uninterpreted function f64_fn3(1, ..) with axiom ax_clamp (audited by the Layer-0 Kani harness ax_clamp); unit rule RV5 (iter_mut().enumerate() -> index loop)",
            "EXACT f64 axioms ax_sub_pos_le / ax_add_pos_ge (a - e <= a <= a + e for finite e > 0, a not NaN) and f64::EPSILON > 0: audited by Layer-0 Kani harnesses of the same names"]
 
 
@@ -30,6 +31,8 @@ def _pre(text):
     text = text.replace('let mut values = Vec::with_capacity(', 'let mut values: Vec<f64> = Vec::with_capacity(')
     # unit rule RV4: visibility only (a private field makes the datatype opaque to pub spec functions)
     text = text.replace("    longest_valid_segment_fraction: f64,\n}", "    pub longest_valid_segment_fraction: f64,\n}")
+    # unit rule RV5: `for (I, X) in E.iter_mut().enumerate() {` -> index loop binding `X = &mut E[I]` (same elements, same order)
+    text = re.sub(r'for \((\w+), (\w+)\) in ([\w.]+)\.iter_mut\(\)\.enumerate\(\) \{', r'for \1 in 0..\3.len() { let \2 = &mut \3[\1];', text)
     text = text.replace("#[derive(Clone)]\npub struct RealVectorStateSpace", "\npub struct RealVectorStateSpace")
     return text
 
@@ -42,9 +45,9 @@ PRELUDE_EDITS = [
     ("    fn interpolate(&self, from: &Self::StateType, to: &Self::StateType, t: f64, state: &mut Self::StateType)\n        ensures *final(state) == self.interp_spec(from, to, t);\n",
      "    fn interpolate(&self, from: &Self::StateType, to: &Self::StateType, t: f64, state: &mut Self::StateType) requires self.state_ok(from), self.state_ok(to), self.state_ok(old(state)),\n        ensures self.interp_rel(from, to, t, final(state)), self.state_ok(final(state));     //@ space.interpolate.law [C10]\n"),
     ("    fn enforce_bounds(&self, state: &mut Self::StateType);\n",
-     "    spec fn interp_rel(&self, from: &Self::StateType, to: &Self::StateType, t: f64, out: &Self::StateType) -> bool; fn enforce_bounds(&self, state: &mut Self::StateType);\n"),
+     "    spec fn interp_rel(&self, from: &Self::StateType, to: &Self::StateType, t: f64, out: &Self::StateType) -> bool; spec fn enforce_rel(&self, before: &Self::StateType, after: &Self::StateType) -> bool; fn enforce_bounds(&self, state: &mut Self::StateType) requires self.state_ok(old(state)), self.space_ok(), ensures self.enforce_rel(old(state), final(state)), self.state_ok(final(state));     //@ space.enforce_bounds.law [C11]\n"),
     ("        requires seeded_mode() ==> old(rng).det(),                  //@ space.sample_uniform.det [C07]\n        ensures final(rng).det() == old(rng).det(),\n            r is Ok ==> self.sample_set(&r->Ok_0);\n",
-     "        requires self.space_ok(), seeded_mode() ==> old(rng).det(),                  //@ space.sample_uniform.det [C07]\n        ensures final(rng).det() == old(rng).det(),\n            r is Ok ==> self.sample_set(&r->Ok_0);     //@ space.sample_uniform.law [C11]\n"),
+     "        requires self.space_ok(), seeded_mode() ==> old(rng).det(),                  //@ space.sample_uniform.det [C07]\n        ensures final(rng).det() == old(rng).det(),\n            r is Ok ==> self.sample_set(&r->Ok_0);     //@ space.sample_uniform.law [C11,C04]\n"),
 ]
 
 A = []
@@ -75,6 +78,13 @@ pub fn rng_random_range_f64<R: Rng>(rng: &mut R, lo: f64, hi: f64) -> (r: f64)  
 pub axiom fn ax_eps_pos() ensures flt(0.0f64, spec_f64_const(1)), f64_pred(1, spec_f64_const(1));
 pub axiom fn ax_sub_pos_le(a: f64, e: f64) requires flt(0.0f64, e), f64_pred(1, e), !fnan(a) ensures fle(a.sub_spec(e), a);
 pub axiom fn ax_add_pos_ge(a: f64, e: f64) requires flt(0.0f64, e), f64_pred(1, e), !fnan(a) ensures fle(a, a.add_spec(e));
+// f64::clamp (EXACT, audited by the Layer-0 harness ax_clamp): NaN stays NaN; otherwise the result is in [lo, hi] and a value already in [lo, hi] is returned unchanged (bit for bit)
+pub axiom fn ax_clamp(x: f64, lo: f64, hi: f64) requires fle(lo, hi)
+    ensures fnan(x) ==> fnan(f64_fn3(1, x, lo, hi)),
+            !fnan(x) ==> fle(lo, f64_fn3(1, x, lo, hi)) && fle(f64_fn3(1, x, lo, hi), hi),
+            (fle(lo, x) && fle(x, hi)) ==> f64_fn3(1, x, lo, hi) == x;
+pub axiom fn ax_nan_arith(a: f64, e: f64) requires fnan(a) ensures fnan(a.sub_spec(e)), fnan(a.add_spec(e));
+pub axiom fn ax_lt_le(a: f64, b: f64) requires flt(a, b) ensures fle(a, b);
 pub axiom fn ax_lt_not_nan(a: f64, b: f64) requires flt(a, b) || fle(a, b) ensures !fnan(a), !fnan(b);
 pub axiom fn ax_gt_not_le(a: f64, b: f64) requires fle(a, b) ensures !fgt(a, b);
 '''
@@ -106,7 +116,7 @@ ann('fn new', 'loop while#1', r'''
                 forall|j: int| 0 <= j < bound__k ==> flt((#[trigger] explicit_bounds@[j]).0, explicit_bounds@[j].1),      //@ prefix_valid [C12]
             decreases explicit_bounds@.len() - bound__k,
 ''', 'rv.new.loop', tags=['C12'])
-for f in ('get_maximum_extent', 'distance', 'enforce_bounds', 'get_longest_valid_segment_length'):
+for f in ('get_maximum_extent', 'distance', 'get_longest_valid_segment_length'):
     ann('fn ' + f, 'attr', '#[verifier::external_body]', 'rv.%s.ext' % f)
 
 ann('impl#2', 'impl-start', r'''
@@ -124,10 +134,18 @@ ann('impl#2', 'impl-start', r'''
     open spec fn in_bounds_spec(&self, s: &RealVectorState) -> bool {
         forall|i: int| 0 <= i < self.dimension ==> self.value_ok(i, #[trigger] s.values@[i])      //@ bounds_law [C11]
     }
+    /// C11: enforcing clamps every coordinate into its interval (NaN stays NaN), nothing else; consequences proved below:
+    /// the enforced state satisfies the bounds and enforcing it again changes nothing
+    open spec fn enforce_rel(&self, before: &RealVectorState, after: &RealVectorState) -> bool {
+        &&& after.values@.len() == before.values@.len()
+        &&& forall|i: int| 0 <= i < self.dimension ==> #[trigger] after.values@[i] == f64_fn3(1, before.values@[i], self.bounds@[i].0, self.bounds@[i].1)      //@ enforce_law [C11]
+        &&& self.in_bounds_spec(after)                                                                                                                            //@ enforced_satisfies_bounds [C11]
+        &&& forall|i: int| 0 <= i < self.dimension ==> f64_fn3(1, #[trigger] after.values@[i], self.bounds@[i].0, self.bounds@[i].1) == after.values@[i] || fnan(after.values@[i])    //@ enforce_idempotent [C11]
+    }
     /// C11: a sample has one coordinate per dimension, each inside [lower, upper) of its interval; it satisfies the bounds (lemma below)
     open spec fn sample_set(&self, s: &RealVectorState) -> bool {
         &&& s.values@.len() == self.dimension
-        &&& forall|i: int| 0 <= i < self.dimension ==> fle(self.bounds@[i].0, #[trigger] s.values@[i]) && flt(s.values@[i], self.bounds@[i].1)      //@ sample_law [C11]
+        &&& forall|i: int| 0 <= i < self.dimension ==> fle(self.bounds@[i].0, #[trigger] s.values@[i]) && flt(s.values@[i], self.bounds@[i].1)      //@ sample_law [C11,C04]
         &&& self.in_bounds_spec(s)                                                                                                    //@ sample_satisfies_bounds [C11]
     }
 ''', 'rv.stspecs', tags=['C10', 'C11'])
@@ -138,6 +156,32 @@ ann('fn interpolate', 'loop for#1', r'''
                 from.values@.len() == self.dimension, to.values@.len() == self.dimension, out_state.values@.len() == self.dimension,
                 forall|j: int| 0 <= j < i ==> #[trigger] out_state.values@[j] == from.values@[j].add_spec(to.values@[j].sub_spec(from.values@[j]).mul_spec(t)),      //@ prefix_interpolated [C10]
 ''', 'rv.interp.loop', tags=['C10'])
+ann('fn enforce_bounds', 'body-start', 'proof { ax_f64_obeys(); }', 'rv.enf.ax')
+ann('fn enforce_bounds', 'loop for#1', r'''
+            invariant
+                self.wf(), state.values@.len() == self.dimension, state.values@.len() == old(state).values@.len(),
+                forall|j: int| 0 <= j < i ==> #[trigger] state.values@[j] == f64_fn3(1, old(state).values@[j], self.bounds@[j].0, self.bounds@[j].1),      //@ prefix_clamped [C11]
+                forall|j: int| i <= j < self.dimension ==> #[trigger] state.values@[j] == old(state).values@[j],
+''', 'rv.enf.loop', tags=['C11'])
+ann('fn enforce_bounds', 'before /let \\(lower, upper\\) = self\\.bounds\\[i\\];/', 'proof { ax_lt_le(self.bounds@[i as int].0, self.bounds@[i as int].1); }', 'rv.enf.pre', tags=['C11'])
+ann('fn enforce_bounds', 'loop-after for#1', r'''
+        proof {
+            ax_eps_pos();
+            assert forall|j: int| 0 <= j < self.dimension implies self.value_ok(j, #[trigger] state.values@[j])
+                && (f64_fn3(1, state.values@[j], self.bounds@[j].0, self.bounds@[j].1) == state.values@[j] || fnan(state.values@[j])) by {
+                let (lo, hi) = (self.bounds@[j].0, self.bounds@[j].1);
+                let x = old(state).values@[j]; let v = state.values@[j]; let e = spec_f64_const(1);
+                ax_lt_le(lo, hi); ax_clamp(x, lo, hi); ax_clamp(v, lo, hi);
+                if fnan(x) {
+                    ax_nan_arith(v, e); ax_cmp_nan(v.sub_spec(e), hi); ax_cmp_nan(v.add_spec(e), lo);
+                } else {
+                    ax_lt_not_nan(lo, v);
+                    ax_sub_pos_le(v, e); ax_le_trans(v.sub_spec(e), v, hi); ax_le_not_gt(v.sub_spec(e), hi);
+                    ax_add_pos_ge(v, e); ax_le_trans(lo, v, v.add_spec(e)); ax_le_not_gt(lo, v.add_spec(e)); ax_lt_gt(v.add_spec(e), lo);
+                }
+            }
+        }
+''', 'rv.enf.lemma', tags=['C11'])
 ann('fn satisfies_bounds', 'body-start', 'proof { ax_f64_obeys(); }', 'rv.sat.ax')
 ann('fn satisfies_bounds', 'loop for#1', r'''
             invariant
@@ -151,8 +195,8 @@ ann('fn sample_uniform', 'loop for#1', r'''
                 <f64 as SubSpec>::obeys_sub_spec(), <f64 as PartialOrdSpec<f64>>::obeys_partial_cmp_spec(),
                 self.wf(), values@.len() == i,
                 rng.det() == old(rng).det(), seeded_mode() ==> rng.det(),
-                forall|j: int| 0 <= j < i ==> fle(self.bounds@[j].0, #[trigger] values@[j]) && flt(values@[j], self.bounds@[j].1),      //@ prefix_sampled [C11]
-''', 'rv.sample.loop', tags=['C11'])
+                forall|j: int| 0 <= j < i ==> fle(self.bounds@[j].0, #[trigger] values@[j]) && flt(values@[j], self.bounds@[j].1),      //@ prefix_sampled [C11,C04]
+''', 'rv.sample.loop', tags=['C11', 'C04'])
 ann('fn sample_uniform', 'before /Ok\(RealVectorState \{ values \}\)/', r'''
         proof {
             // a coordinate in [lower, upper) passes the EPSILON-widened check: v - EPS <= v < upper and lower <= v <= v + EPS
